@@ -1019,7 +1019,8 @@ func (sp *ServiceProvider) parseResponse(responseEl *etree.Element, possibleRequ
 			// Per section 3.4.5.2 of the SAML spec, Destination must match the location at which the response was received, i.e. currentURL.
 			// Historically, we checked against the SP's ACS URL instead of currentURL, which is usually the same but may differ in query params.
 			// To mitigate the risk of switching to comparing against currentURL, we still allow it if the ACS URL matches, even if the current URL doesn't.
-			if response.Destination != currentURL.String() && response.Destination != sp.AcsURL.String() {
+			// An absent Destination matches no location, not even a received-at URL the caller left empty.
+			if response.Destination == "" || (response.Destination != currentURL.String() && response.Destination != sp.AcsURL.String()) {
 				return nil, fmt.Errorf("`Destination` does not match requested URL or AcsURL (destination %q, requested %q, acs %q)", response.Destination, currentURL.String(), sp.AcsURL.String())
 			}
 		}
